@@ -31,6 +31,12 @@ def loop(i):
         ok = True
         if kind == "multi":
             for old, new in it[3]:
+                if old.startswith("@first:"):
+                    old = old[len("@first:"):]
+                    if s.count(old) < 1:
+                        out[pid] = ("APPLY-FAILED", "pattern %r not found" % old[:50]); ok = False; break
+                    s = s.replace(old, new, 1)
+                    continue
                 if s.count(old) != 1:
                     out[pid] = ("APPLY-FAILED", "pattern %r occurs %d times" % (old[:50], s.count(old))); ok = False; break
                 s = s.replace(old, new)
